@@ -135,6 +135,9 @@ def main(tier):
         # ---- concurrent histories (supporting validation): porcupine linearizability + quiescent consistency
         nconc = 60 if tier == "thorough" else 12
         lines = [f"vmapconc {r.randint(1, 10**6)} {r.choice((4, 8, 12))} {r.choice((300, 600))} {r.choice((2, 4, 16))}" for _ in range(nconc)]
+        # sparse key spaces: most Load / LoadAndDelete calls hit ABSENT keys while stores of new keys keep the dirty map amended and
+        # Range keeps promoting it — the windows of the miss / promotion paths
+        lines += [f"vmapconc {r.randint(1, 10**6)} {r.choice((8, 12, 16))} {r.choice((400, 800))} {r.choice((64, 200, 1000))}" for _ in range(nconc * 2)]
         out = run.go_only("vmap-concurrent", lines, go_timeout=600)
         nops = 0
         for ln, g in out:
